@@ -187,6 +187,15 @@ func renderEexec(v *eexecVec, rng *rand.Rand) ([]byte, error) {
 			}
 		}
 	}
+	// position of the section: for most vectors a leading comment moves the first cipher byte to the
+	// offsets around the scanner's refill boundary (the four peeked lead bytes then straddle a refill)
+	if tgt := []int{0, 509, 510, 511, 512, 513, 1021, 1023}[rng.Intn(8)]; tgt > 0 {
+		pad := ((tgt-len(out))%512 + 512) % 512
+		if pad < 2 {
+			pad += 512
+		}
+		out = append([]byte("%"+strings.Repeat("x", pad-2)+"\n"), out...)
+	}
 	encSection(plain)
 	switch v.Trailer {
 	case "zeros":
@@ -222,6 +231,7 @@ func replayEexec(args []string) error {
 	fs := flag.NewFlagSet("replay-eexec", flag.ContinueOnError)
 	basePath := fs.String("base", "", "base heap")
 	seed := fs.Int64("seed", 1, "seed")
+	fs.BoolVar(&compareCount, "count", false, "also compare Interpreter.NumOps with the reference (C11)")
 	if err := fs.Parse(args); err != nil {
 		return err
 	}
@@ -258,7 +268,11 @@ func replayEexec(args []string) error {
 			if d == nil {
 				sum.Agreed++
 			} else {
-				d.Sig = fmt.Sprintf("eexec form=%s ws=%s trailer=%s plaintext#%d %s", v.Form, v.Ws, v.Trailer, v.P, d.Sig[strings.LastIndex(d.Sig, "] ")+2:])
+				tag := "eexec"
+				if v.MaxOps > 0 {
+					tag = "eexec[budget]"
+				}
+				d.Sig = fmt.Sprintf("%s form=%s ws=%s trailer=%s plaintext#%d %s", tag, v.Form, v.Ws, v.Trailer, v.P, d.Sig[strings.LastIndex(d.Sig, "] ")+2:])
 				d.Stimulus = v.psVector.Label + ": " + fmt.Sprintf("%q", truncate(s, 600))
 				sum.NDisagree++
 				sum.BySig[d.Sig]++
